@@ -187,6 +187,8 @@ Run(D, K, loc, atStart, fuel) ==
                 ELSE Run(D, K1, [loc EXCEPT !.nxt = (s.n :> v) @@ @,
                                             !.tmp = IF s.delayed = 1 THEN @ ELSE (s.n :> v) @@ @], FALSE, fuel - 1)
            [] s.k = "comment" -> Run(D, K1, loc, atStart, fuel - 1)     \* no effect, not an action
+           \* `n = cohdl.always(E)`: concurrent logic; n is bound for the whole context (see AlwaysBinds), nothing is executed here
+           [] s.k = "always" -> Run(D, K1, loc, atStart, fuel - 1)
            [] s.k = "bind" ->
                 LET v == CEval(s.e, ReadEnv(loc)) IN
                 IF CIsErr(v) THEN [K |-> K, loc |-> [loc EXCEPT !.err = v.v]]
@@ -331,6 +333,23 @@ ResetActive(ctx, rd) ==
        IF ctx.reset.active_low = 1 THEN r.v = 0 ELSE r.v = 1
 
 \* one activation of sequential context c with the given (old) values -> [nxt, var, K, err]
+\* C03: "any expression hoisted with `cohdl.always` out of a sequential context continuously drives its targets with the
+\*  current value of its operands": the name stands for the value of the expression over the CURRENT signal values in every
+\* activation and every state of the context, whether or not the statement that introduced it was on the executed path
+RECURSIVE AlwaysBinds(_, _)
+AlwaysBinds(ss, i) ==
+  IF i > Len(ss) THEN << >>
+  ELSE LET s == ss[i]
+           here == CASE s.k = "always" -> <<[n |-> s.n, e |-> s.e]>>
+                     [] s.k = "if" -> AlwaysBinds(s.th, 1) \o AlwaysBinds(s.el, 1)
+                     [] s.k = "while" -> AlwaysBinds(s.body, 1)
+                     [] s.k = "ucall" -> AlwaysBinds(s.body, 1)
+                     [] OTHER -> << >>
+       IN here \o AlwaysBinds(ss, i + 1)
+AlwaysEnv(ctx, cur) ==
+  LET bs == AlwaysBinds(ctx.body, 1) IN
+  [n \in {bs[i].n : i \in 1..Len(bs)} |-> CEval(bs[CHOOSE i \in 1..Len(bs) : bs[i].n = n].e, cur)]
+
 ActivateSeq(E, D, c, st, cur) ==
   LET ctx == E.ctxs[c]
       written == StmtsTargets(ctx.body, 1, {"next", "value", "push"})
@@ -353,7 +372,7 @@ ActivateSeq(E, D, c, st, cur) ==
   LET \* C03: "a signal assigned with ^= carries the pushed value for exactly one step and its
       \*  default in every step in which it is not pushed"
       nxt0 == [n \in pushed |-> D.dflt[n]]
-      loc0 == [cur |-> cur, nxt |-> nxt0, var |-> [n \in vars |-> cur[n]], tmp |-> CEmptyFn, err |-> ""]
+      loc0 == [cur |-> cur, nxt |-> nxt0, var |-> [n \in vars |-> cur[n]], tmp |-> AlwaysEnv(ctx, cur), err |-> ""]
       fresh == st.k[c] = << >>
       K0 == IF fresh THEN <<SeqFrame(ctx.body)>> ELSE st.k[c]
       r == Run(D, K0, loc0, fresh, 200)
